@@ -861,5 +861,21 @@ func corpus() []interface{} {
 			{{K: 0, S: []int{1}}},
 			{{K: 0}, {K: 1}},
 		}},
+		// regression inputs (pass on the pinned code): a service key owned by another member;
+		// a token derived from one whose id was already asked for
+		input{Kind: "rosters", Label: "ownership", Rosters: [][]mem{
+			{{K: 0, S: []int{2}}, {K: 1}},
+			{{K: 0}, {K: 1, S: []int{2}}},
+		}},
+		input{Kind: "tokens", Label: "derived",
+			Tokens: [][6]string{
+				{"11111111111111111111111111111111", "22222222222222222222222222222222", "33333333333333333333333333333333",
+					"44444444444444444444444444444444", "55555555555555555555555555555555", "66666666666666666666666666666666"},
+				{"11111111111111111111111111111111", "22222222222222222222222222222222", "33333333333333333333333333333333",
+					"44444444444444444444444444444444", "77777777777777777777777777777777", "66666666666666666666666666666666"},
+				{"11111111111111111111111111111111", "22222222222222222222222222222222", "33333333333333333333333333333333",
+					"44444444444444444444444444444444", "77777777777777777777777777777777", "66666666666666666666666666666666"},
+			},
+			Derive: []deriv{{}, {From: 0, How: "clone"}, {}}},
 	}
 }
